@@ -27,7 +27,7 @@ type PlayOpts struct {
 
 // topological order variants of an epoch's events
 func orderEvents(r *rand.Rand, evs []*Ev, mode string) []*Ev {
-	if mode == "gen" || mode == "" {
+	if mode == "gen" || mode == "" || len(evs) == 0 {
 		return evs
 	}
 	n := len(evs)
